@@ -1249,6 +1249,9 @@ def replay_file(path):
     pid, rp, key = rec["property"], rec["replay"], rec["key"]
     ctx = _ReplayCtx()
     fails = []
+    if isinstance(rp, dict) and str(rp.get("kind", "")).startswith("harvest-"):
+        from . import harvest_run
+        return harvest_run.replay(rp)
     if pid == "C12" and "dt" in rp:
         fails = c12_default_dtype_group(dict(c=rp["config"], seed=rp["seed"], dts=[rp["dt"]], ts_list=[rp["ts"]]))["fails"]
     elif pid == "C12":
